@@ -601,6 +601,27 @@ mod verif_hashtbl {
     // =========================================================================================
     // find_or_find_insert_slot / insert
     // =========================================================================================
+    // Contract stubs (Kani `-Z stubbing`). They keep allocation sizes concrete:
+    // `next_capacity` is replaced by its contract for the size class of the harness, which is
+    // proved against the real function for ALL requests by `next_capacity_u32`
+    // (`1..=12 -> 16`, `13..=24 -> 32`, `0 -> 0`). The stub asserts that the request is in the class.
+    fn next_capacity_class_16<T, S: Status, A: Clone + Allocator>(requested: usize) -> usize {
+        assert!(requested >= 1 && requested <= 12);
+        16
+    }
+    fn next_capacity_class_32<T, S: Status, A: Clone + Allocator>(requested: usize) -> usize {
+        assert!(requested >= 13 && requested <= 24);
+        32
+    }
+    fn next_capacity_class_0<T, S: Status, A: Clone + Allocator>(requested: usize) -> usize {
+        assert!(requested == 0);
+        0
+    }
+    /// for harnesses that claim "no rehash happens": reaching the rehash is a failure
+    fn reserve_rehash_unreachable<T, S: Status, A: Clone + Allocator>(_this: &mut RawTable<T, S, A>, _additional: usize) {
+        assert!(false);
+    }
+
     fn check_fofis_result<const N: usize>(t: &Tbl, h: &H, k: u8, r: Result<usize, usize>, old_view: u32) {
         match r {
             Ok(i) => {
@@ -616,6 +637,7 @@ mod verif_hashtbl {
     /// enough reserve: no rehash, table untouched
     #[kani::proof]
     #[kani::unwind(17)]
+    #[kani::stub(RawTable::reserve_rehash, reserve_rehash_unreachable)]
     fn find_or_find_insert_slot_16_norehash() {
         let h: H = kani::any();
         let mut t = any_wf16(&h);
@@ -633,6 +655,7 @@ mod verif_hashtbl {
     /// reserve exhausted (free == slots/4): rehash in place (tombstones are purged), 16 -> 16
     #[kani::proof]
     #[kani::unwind(17)]
+    #[kani::stub(RawTable::next_capacity, next_capacity_class_16)]
     fn find_or_find_insert_slot_16_rehash() {
         let h: H = kani::any();
         let mut t = any_wf16(&h);
@@ -655,6 +678,7 @@ mod verif_hashtbl {
     /// growth 16 -> 32: table holds 12 elements (key universe 0..13), 4 FREE slots
     #[kani::proof]
     #[kani::unwind(33)]
+    #[kani::stub(RawTable::next_capacity, next_capacity_class_32)]
     fn find_or_find_insert_slot_grow_16_to_32() {
         const NK2: u8 = 13;
         let h: H = kani::any();
